@@ -623,6 +623,9 @@ def resource_wait(ctx, o):
             if call_attr(cl) == 'reserve_resources_with_callback':
                 cb = cl.args[1] if len(cl.args) > 1 else next((k.value for k in cl.keywords if k.arg == 'callback'), None)
                 rq = cl.args[0] if cl.args else next((k.value for k in cl.keywords if k.arg == 'request'), None)
+                from ..norm import subst as _sb
+                rq = _sb(rq, FrameEnv(n.frame)) if rq is not None else None       # through a local (`needed = self._resources_for_processing`)
+                cb = _sb(cb, FrameEnv(n.frame)) if cb is not None else None
                 good = cb is not None and is_self_attr(cb) and rq is not None and is_self_attr(rq, '_resources_for_processing')
                 st = st.with_flag(('registered2' if 'registered' in st.flags else 'registered') if good else 'registered-wrong')
                 if good:
@@ -672,7 +675,7 @@ def resource_wait(ctx, o):
     # the flag has no other writer
     for s in inv.attr_stores(P, '_waiting_for_resources'):
         o.count()
-        if s.cls is not c or s.func.name not in ({'__init__', '_can_accept_part'} | cbs):
+        if s.cls is not c or s.func.name not in inv.covered(P, {'__init__', '_can_accept_part'} | cbs):
             o.fail(P, s.ctx, s.stmt, 'the waiting-for-resources flag is written outside the acceptance test and its callback', file=s.mod.path, line=s.line)
 
 
